@@ -132,7 +132,7 @@ class BaseNode(Node):
         """
         if value is None and self.value_raw:
             self.value = self.cast_value()
-        elif value:
+        elif value is not None:
             self.value = value
         else:
             self.value = None
@@ -142,7 +142,7 @@ class BaseNode(Node):
         """
         if node.keyword!='mod' and node.dtype!=self.dtype:
             raise Exception(f"Datatype {self.dtype} of node '{self.name}' cannot be changed to {node.dtype}")
-        if not self.value:  # create a dummy value if none
+        if self.value is None:  # create a dummy value if none
             self.set_value(node.value_raw)
         # copy value type modify values and units
         value = self.value.copy()
@@ -150,7 +150,10 @@ class BaseNode(Node):
         if isinstance(value, (IntegerType, FloatType)):
             value.unit = node.units_raw
             value.convert(self.units_raw, env)
-        self.set_value(value.value)
+        if value.value is None:  # explicitly assigned none
+            self.value = value
+        else:
+            self.set_value(value.value)
 
     def slice_value(self, slices, value=None):
         """ Slice part of the value
